@@ -308,7 +308,7 @@ class LoopMixin:
                     work.extend(st2.dctx[0].alts)
                     continue
                 work.extend(st2.dctx[0].alts)
-                delta = st2.pc[n_pc0:]
+                delta = [c for i, c in enumerate(st2.pc) if i >= n_pc0 and i not in st2.assumed]
                 results.append(dict(outcome=outcome, payload=payload, cond=z3.And(*delta) if delta else TRUE, st=st2, env=env2,
                                     effects=st2.effects[n_eff0:]))
                 if len(results) > 400:
